@@ -1,13 +1,21 @@
 """C04 decoding arbitrary bytes is memory-safe and terminates — R04.1 NULL-slot dispatch, R04.2 wire-derived table
 index, R04.3 fetch results fully discriminated, R04.4 no assert on wire data, R04.5 no unbounded writers."""
 from ..engine import Rule, load_tables
+from ..model import strip_casts, is_var
 from . import nullslot
 
 EXPLANATION = (
     "R04.1: every indirect call through a decode-side op-table slot (ber/xer/oer/uper decoder, free, print, compare, "
     "outmost_tag) whose slot is NULL in at least one op table of the configuration is unreachable under the assumption "
     "that the slot expression is NULL (assume-NULL reachability over the CFG), or the NULL tables provably cannot reach "
-    "the site (table exclusions with reasons).")
+    "the site (table exclusions with reasons). R04.2: every subscript of a descriptor table (elements, tag2el, value2enum, "
+    "from/to canonical maps) by a non-constant index is dominated by the bounded edge of an upper-bound comparison of that "
+    "index. R04.3: the result of each length/tag fetch routine and PER bit getter is assumed to be each of its sentinels "
+    "(0 need-more, -1 error) in turn; no arithmetic use of the result (or of a plain copy) may be reachable under the "
+    "assumption. R04.5: writes through a pointer that may alias a fixed stack array are bounded on the edge that selected "
+    "the array; no sprintf/strcpy/strcat/gets. R04.6: bytes appended to a heap buffer field are preceded by a reallocation "
+    "sized with the fetched length. R04.7: assuming a call that returns asn_dec_rval_t (sub-decoder slot, ber_check_tags, "
+    "named decoders) reported RC_FAIL or RC_WMORE, no return with the constant RC_OK is reachable.")
 NOT_DECIDED = ("absence of all out-of-bounds accesses (needs relational numeric reasoning about size/cursor), termination "
                "in general, everything inside generated code")
 ASSUMPTIONS = []
@@ -22,7 +30,17 @@ def run_config(prog, cfg):
     nullslot.null_slot_rule(prog, r1, DECODE_SIDE, tab)
     for i in r1.insts:
         i.config = cfg
-    return [r1, r04_2(prog, cfg), r04_5(prog, cfg), r04_6(prog, cfg)]
+    from .sentinels import sentinel_rule
+    from . import common
+    r3 = Rule("R04.3", "results of the length/tag fetch routines and PER bit getters are never used in arithmetic where a sentinel (0 = need more, -1 = error) is still possible", floor=40 if cfg == "default" else 10)
+    cg = prog.callgraph()
+    dscope = [prog.funcs[k] for k in cg.reachable(common.slot_functions(prog, common.DECODER_SLOTS))]
+    t4 = load_tables("c04")
+    sentinel_rule(prog, r3, dscope, {k: tuple(v) for k, v in t4["fetchers"].items()},
+                  {(x["function"], x["key"]): x["reason"] for x in t4.get("r04_3_exceptions", [])})
+    for i in r3.insts:
+        i.config = cfg
+    return [r1, r04_2(prog, cfg), r3, r04_5(prog, cfg), r04_6(prog, cfg), r04_7(prog, cfg)]
 
 
 def run(ctx):
@@ -359,6 +377,89 @@ def r04_2(prog, cfg):
             else:
                 r.bad(f, key, "`%s` indexes a descriptor table with `%s`, and no upper-bound comparison of that index guards the access on "
                               "every path: a value taken from the input (or a corrupted structure) reads past the table" % (tree_text(bt), tree_text(it)), e["line"])
+    for i in r.insts:
+        i.config = cfg
+    return r
+
+
+# ------------------------------------------------------------------------------------------ R04.7
+def r04_7(prog, cfg):
+    """A failed (RC_FAIL) or starved (RC_WMORE) sub-decoder / tag check is never turned into RC_OK.
+
+    Sites: every call whose result type is asn_dec_rval_t inside a function that is reachable from a decoder slot and
+    itself returns asn_dec_rval_t.  The result must be held; assuming its .code is RC_FAIL (then RC_WMORE), the CFG is
+    explored with every branch on the result decided by the assumption: no return whose code is the constant RC_OK may
+    be reachable (returning the result itself, or a code copied from it, is fine).  Without this the out-parameters of the
+    failed call (the length of ber_check_tags, the half-built member) are used as if they were valid."""
+    from .. import assume
+    from . import common
+    from ..retabs import dec_return
+    t4 = load_tables("c04")
+    exc = {(x["function"], x["key"]): x["reason"] for x in t4.get("r04_7_exceptions", [])}
+    r = Rule("R04.7", "a failing or starved sub-decoder / tag check never becomes RC_OK: its out-parameters are not used as valid data", floor=40 if cfg == "default" else 10)
+    cg = prog.callgraph()
+    scope = cg.reachable(common.slot_functions(prog, common.DECODER_SLOTS))
+    for k in sorted(scope):
+        f = prog.funcs[k]
+        if "asn_dec_rval" not in f.ret_type:
+            continue
+
+        def classify(b, i, e, env=None, f=f):
+            env = env or {}
+            ex = e.get("expr")
+            t = strip_casts(ex["tree"]) if ex else None
+            if is_var(t):
+                v = env.get((t[1], "code"))
+                if isinstance(v, int):
+                    return "success" if v == 0 else "fail"
+            d = dec_return(f, b, i, e)
+            c = d.get("code", "unknown")
+            if c == "RC_OK":
+                return "success"
+            if c in ("RC_FAIL", "RC_WMORE"):
+                return "fail"
+            if c.startswith("child:"):
+                return "unknown:child"      # the result of another call: that call decides (a later site of this rule)
+            return "unknown:" + c
+        for b, i, e in f.calls():
+            if "asn_dec_rval" not in e.get("ret_type", ""):
+                continue
+            name = e.get("callee") or ("->" + e["slot"] if e.get("slot") else "indirect")
+            key = name
+            use = e.get("use")
+            if (f.name, key) in exc:
+                r.exc(f, key, exc[(f.name, key)], e["line"])
+                continue
+            if use == "returned":
+                r.ok(f, key, "result returned to the caller", e["line"], nontrivial=False)
+                continue
+            if use in ("discarded", "voidcast"):
+                r.bad(f, key, "result of the sub-decoder is discarded: its failure is invisible and its outputs are used regardless", e["line"])
+                continue
+            subj = assume.subject_of_call(e, "code")
+            if subj is None:
+                r.bad(f, key, "result of the sub-decoder is used as `%s` and never tested" % use, e["line"])
+                continue
+            bad = None
+            for v in (2, 1):
+                hits = assume.explore(f, b, i, subj, v, classify, origin_callid=e.get("id"), from_entry=False)
+                if any(h[0] == "success" for h in hits):
+                    hits = assume.explore(f, b, i, subj, v, classify, origin_callid=e.get("id"), from_entry=True)
+                for kind, rb, ri, re_, path, lost in hits:
+                    if kind == "success":
+                        bad = (v, rb, re_, path, lost)
+                        break
+                if bad:
+                    break
+            if bad is None:
+                r.ok(f, key, "assuming the call returned RC_FAIL / RC_WMORE, no RC_OK return is reachable", e["line"])
+            else:
+                v, rb, re_, path, lost = bad
+                from .. import guards
+                r.bad(f, key, "assuming this call returned %s, control reaches the RC_OK return at line %s%s: the failure is "
+                      "swallowed and the call's outputs are used as valid" % ({2: "RC_FAIL", 1: "RC_WMORE"}[v], re_.get("line"),
+                                                                               " (the result was overwritten on the way)" if lost else ""),
+                      e["line"], witness={"path": guards.path_lines(f, path), "assumed": v})
     for i in r.insts:
         i.config = cfg
     return r
